@@ -263,7 +263,7 @@ structure PartOk2 (N : Str → Prop) (sh : Shape) (dim : Nat) (ded : List Str) (
   nameN : N p.name
   attrsX : ∀ na ∈ p.attrs, N na.1 ∧ na.2.dim < 2 ^ 64
   attrsSorted : p.attrs.Pairwise (fun a b => strLt a.1 b.1 = true)
-  zb : p.topoType = .full → zeroBelow p.sizes = false
+  zb : p.topoType ≠ .none → zeroBelow p.sizes = false
 
 /-- what is known about a frame sitting directly above a `<MeshPart>` frame `p` -/
 def childOkP (N : Str → Prop) (sh : Shape) (dim : Nat) (p : PartSt) : Frame → Prop
@@ -314,7 +314,7 @@ structure NodeOk2 (N : Str → Prop) (sh : Shape) (dim : Nat) (ded : List Str) (
   meshZB : ∀ m, n.mesh = some m → zeroBelow m.sizes = false
   parts : ∀ np ∈ n.parts, Part.wfIf (np.1 ∉ ded) sh dim np.2 ∧ Part.wfX N np.1 np.2
   partsChart : ∀ np ∈ n.parts, np.2.chart = []
-  partsZB : ∀ np ∈ n.parts, np.1 ∉ ded → np.2.hasTopo = true → zeroBelow np.2.sizes = false
+  partsZB : ∀ np ∈ n.parts, np.2.hasTopo = true → zeroBelow np.2.sizes = false
   partsSorted : n.parts.Pairwise (fun a b => strLt a.1 b.1 = true)
   partitions : ∀ p ∈ n.partitions, p.wf ∧ p.wfX N
 
@@ -473,7 +473,7 @@ theorem PartOk2.close {N : Str → Prop} {sh : Shape} {dim : Nat} {ded : List St
     (ht : p.topoType = .full → ∀ i, i < p.topo.length → (p.topo.getD i none).isNone = true →
       p.sizes.getD (i + 1) 0 = 0) :
     Part.wfIf (p.topoType ≠ .parent) sh dim (mkPart p) ∧ Part.wfX N p.name (mkPart p) ∧
-      (p.topoType ≠ .parent → (mkPart p).hasTopo = true → zeroBelow (mkPart p).sizes = false) := by
+      ((mkPart p).hasTopo = true → zeroBelow (mkPart p).sizes = false) := by
   unfold mkPart
   refine ⟨⟨hp.sizesLen, by simp [hp.mapsLen], ?_, ?_, by simp [hp.topoLen], ?_, ?_, hp.attrs⟩,
     ⟨hp.sizes64, hp.nameN, hp.attrsX, hp.attrsSorted⟩, ?_⟩
@@ -524,11 +524,9 @@ theorem PartOk2.close {N : Str → Prop} {sh : Shape} {dim : Nat} {ded : List St
     obtain ⟨o, ho, rfl⟩ := hts
     rw [hp.noTopo hnone o ho]
     rfl
-  · intro hnp hT
+  · intro hT
     simp only at hT ⊢
-    have hfull : p.topoType = .full := by
-      cases hq : p.topoType <;> simp_all
-    exact hp.zb hfull
+    exact hp.zb (by simpa using hT)
 
 theorem getD_sorted_bounded {ne : Nat} {patches : List (List Nat)}
     (h : ∀ el ∈ patches, el.Pairwise (· < ·) ∧ ∀ e ∈ el, e < ne) (rank : Nat) :
@@ -754,7 +752,7 @@ theorem closeTop_step {N : Str → Prop} {sh : Shape} {dim : Nat} {st st' : St} 
             · exact hn.partsChart np hnp
           · intro np hnp
             rcases mem_mapInsert _ _ _ _ _ hnp with rfl | hnp
-            · exact fun hni => hw3 (hnpar hni)
+            · exact hw3
             · exact hn.partsZB np hnp
           · exact mapInsert_sorted _ _ _ hn.partsSorted
     | partition name prio level nr ne patches hv =>
@@ -840,7 +838,7 @@ theorem partCreate_ok2 {st : St} {line : Nat} {m : Markup} {p : PartSt} {links :
       (∀ s ∈ p.sizes, s < 2 ^ 64) ∧ p.maps = List.replicate (st.dim + 1) none ∧
       p.topo = List.replicate st.dim none ∧ p.attrs = [] ∧
       deduct = (if p.topoType == .parent then st.deduct ++ [p.name] else st.deduct) ∧
-      (p.topoType = .full → zeroBelow p.sizes = false) := by
+      (p.topoType ≠ .none → zeroBelow p.sizes = false) := by
   unfold partCreate at h
   split at h
   · simp [gErr] at h
@@ -876,10 +874,10 @@ theorem partCreate_ok2 {st : St} {line : Nat} {m : Markup} {p : PartSt} {links :
                     rcases hs with hs | ⟨_, rfl⟩
                     · exact mapMOpt_readIndex_lt hgiven s hs
                     · exact Nat.two_pow_pos 64
-                  · intro hfull
-                    simp only at hfull
-                    subst hfull
-                    simpa using hzb
+                  · intro hne
+                    simp only at hne
+                    have hb : (tt != TopoType.none) = true := by cases tt <;> simp_all
+                    simpa [hb] using hzb
     · simp [gErr] at h
 
 theorem meshCreate_ok2 {st : St} {line : Nat} {m : Markup} {f : Frame}
@@ -919,7 +917,7 @@ theorem NodeOk2.mono {N : Str → Prop} {sh : Shape} {dim : Nat} {ded ded' : Lis
     (h : NodeOk2 N sh dim ded n) (hsub : ∀ x ∈ ded, x ∈ ded') : NodeOk2 N sh dim ded' n :=
   { h with
     parts := fun np hnp => ⟨(h.parts np hnp).1.mono (fun hni hx => hni (hsub _ hx)), (h.parts np hnp).2⟩
-    partsZB := fun np hnp hni => h.partsZB np hnp (fun hx => hni (hsub _ hx)) }
+    partsZB := h.partsZB }
 
 theorem push_open {N : Str → Prop} {sh : Shape} {dim : Nat} {st1 st' : St} {line : Nat} {c : Bool}
     {shape : Shape} {d : Nat} {deduct : List Str}
@@ -1311,6 +1309,319 @@ theorem mapFind_mem_key {α : Type} (k : Str) : ∀ (l : List (Str × α)) (v : 
       simp
     · exact List.mem_cons_of_mem _ (mapFind_mem_key k rest v h)
 
+/-! ### third invariant: the linker's deduction list only names parts that have (or will get) a topology -/
+
+theorem mem_mapInsert_of_mem {α : Type} (k : Str) (v : α) :
+    ∀ (l : List (Str × α)) (x : Str × α), x ∈ l → x ∈ mapInsert strLt k v l
+  | [], x, h => by cases h
+  | (k', v') :: rest, x, h => by
+    simp only [mapInsert]
+    split
+    · exact List.mem_cons_of_mem _ h
+    · split
+      · simp only [List.mem_cons] at h ⊢
+        rcases h with h | h
+        · exact Or.inl h
+        · exact Or.inr (mem_mapInsert_of_mem k v rest x h)
+      · exact h
+
+theorem mapInsert_has_key {α : Type} (k : Str) (v : α) :
+    ∀ (l : List (Str × α)), ∃ x ∈ mapInsert strLt k v l, x.1 = k
+  | [] => ⟨(k, v), by simp [mapInsert], rfl⟩
+  | (k', v') :: rest => by
+    simp only [mapInsert]
+    split
+    · exact ⟨(k, v), by simp, rfl⟩
+    · split
+      · obtain ⟨x, hx, e⟩ := mapInsert_has_key k v rest
+        exact ⟨x, List.mem_cons_of_mem _ hx, e⟩
+      · rename_i h1 h2
+        refine ⟨(k', v'), by simp, ?_⟩
+        exact (strLt_total k k' (by simpa using h1) (by simpa using h2)).symm
+
+theorem mapFind_none_key {α : Type} (k : Str) : ∀ (l : List (Str × α)),
+    mapFind strLt k l = none → ∀ x ∈ l, x.1 ≠ k
+  | [], _, x, hx => by cases hx
+  | (k', v') :: rest, h, x, hx => by
+    unfold mapFind at h
+    split at h
+    · cases h
+    · rename_i hc
+      simp only [List.mem_cons] at hx
+      rcases hx with rfl | hx
+      · intro e
+        apply hc
+        simp only at e
+        subst e
+        simp [strLt_irrefl]
+      · exact mapFind_none_key k rest h x hx
+
+/-- name and topology type of the open `<MeshPart>` frame, if there is one -/
+def openPart : List Frame → Option (Str × TopoType)
+  | [] => none
+  | Frame.root :: _ => none
+  | Frame.part p :: _ => some (p.name, p.topoType)
+  | _ :: rest => openPart rest
+
+/-- the root frame is the bottom of the stack and a `<MeshPart>` frame sits directly on it: no two part frames
+    are open at once -/
+def rootBottom : List Frame → Prop
+  | [] => True
+  | Frame.root :: rest => rest = []
+  | Frame.part _ :: rest => rest = [Frame.root]
+  | _ :: rest => rootBottom rest
+
+/-- the deduction list `ded` against the finished parts and the open part frame `o` -/
+structure DedOk (parts : List (Str × Part)) (ded : List Str) (o : Option (Str × TopoType)) : Prop where
+  has : ∀ np ∈ parts, np.1 ∈ ded → np.2.hasTopo = true
+  src : ∀ x ∈ ded, (∃ np ∈ parts, np.1 = x) ∨ ∃ t, o = some (x, t)
+  opn : ∀ x, o = some (x, TopoType.none) → x ∉ ded
+
+def Inv3 (st : St) : Prop := rootBottom st.stack ∧ DedOk st.node.parts st.deduct (openPart st.stack)
+
+theorem Inv3_of {st st' : St} (h : Inv3 st) (hs : rootBottom st'.stack) (ho : openPart st'.stack = openPart st.stack)
+    (hp : st'.node.parts = st.node.parts) (hd : st'.deduct = st.deduct) : Inv3 st' := by
+  unfold Inv3
+  rw [ho, hp, hd]
+  exact ⟨hs, h.2⟩
+
+theorem contentM_inv3 {st st' : St} {line : Nat} {s : Str} (hI : Inv3 st) (h : contentM st line s = .ok st') :
+    Inv3 st' := by
+  obtain ⟨shape, d, stack, node, links, deduct, unm⟩ := st
+  unfold contentM at h
+  repeat' (first | split at h | (simp only at h; split at h))
+  all_goals first
+    | (simp [cErr] at h; done)
+    | (simp [gErr] at h; done)
+    | (simp only [Except.ok.injEq] at h; subst h; simp only [Inv3] at hI ⊢; simp_all [rootBottom, openPart]; done)
+
+theorem closePart_inv3 {shape : Shape} {d : Nat} {p : PartSt} {rest : List Frame} {node : Node}
+    {links : List (Str × Str)} {deduct : List Str} {unm : Bool} {part : Part}
+    (hpt : part.hasTopo = (p.topoType != .none))
+    (hI : Inv3 ⟨shape, d, Frame.part p :: rest, node, links, deduct, unm⟩) :
+    Inv3 ⟨shape, d, rest, { node with parts := mapInsert strLt p.name part node.parts }, links, deduct, unm⟩ := by
+  obtain ⟨hr, hd⟩ := hI
+  simp only [rootBottom] at hr
+  subst hr
+  simp only [openPart] at hd
+  refine ⟨rfl, ?_, ?_, ?_⟩
+  · intro np hnp hin
+    rcases mem_mapInsert _ _ _ _ _ hnp with rfl | hnp
+    · simp only [hpt]
+      cases hq : p.topoType with
+      | none => exact absurd hin (hd.opn p.name (by rw [hq]))
+      | full => rfl
+      | parent => rfl
+    · exact hd.has np hnp hin
+  · intro x hx
+    left
+    rcases hd.src x hx with ⟨np, hnp, e⟩ | ⟨t, e⟩
+    · exact ⟨np, mem_mapInsert_of_mem _ _ _ _ hnp, e⟩
+    · simp only [Option.some.injEq, Prod.mk.injEq] at e
+      obtain ⟨x', hx', e'⟩ := mapInsert_has_key p.name part node.parts
+      exact ⟨x', hx', e'.trans e.1⟩
+  · intro x hx
+    simp [openPart] at hx
+
+theorem closeTop_inv3 {st st' : St} {line : Nat} (hI : Inv3 st) (h : closeTop st line = .ok st') : Inv3 st' := by
+  obtain ⟨shape, d, stack, node, links, deduct, unm⟩ := st
+  unfold closeTop at h
+  repeat' (first | split at h | (simp only at h; split at h))
+  all_goals first
+    | (simp [gErr] at h; done)
+    | (simp only [Except.ok.injEq] at h; subst h; simp only [Inv3] at hI ⊢; simp_all [rootBottom, openPart]; done)
+    | (simp only [Except.ok.injEq] at h; subst h; subst_vars; exact closePart_inv3 rfl hI)
+
+theorem push_inv3 {st1 st' : St} {line : Nat} {c : Bool} (hI : Inv3 st1)
+    (h : (if c = true then closeTop st1 line else .ok st1) = .ok st') : Inv3 st' := by
+  split at h
+  · exact closeTop_inv3 hI h
+  · simp only [Except.ok.injEq] at h
+    subst h
+    exact hI
+
+theorem openM_inv3 {st st' : St} {line : Nat} {m : Markup} (hI : Inv3 st) (h : openM st line m = .ok st') :
+    Inv3 st' := by
+  obtain ⟨shape, d, stack, node, links, deduct, unm⟩ := st
+  cases stack with
+  | nil => simp [openM, gErr] at h
+  | cons f rest =>
+    cases f with
+    | verts _ _ => simp [openM, gErr] at h
+    | topo _ _ _ _ _ => simp [openM, gErr] at h
+    | mapping _ _ _ => simp [openM, gErr] at h
+    | attr _ _ _ _ => simp [openM, gErr] at h
+    | patch _ _ _ _ _ => simp [openM, gErr] at h
+    | chartItem => simp [openM, gErr] at h
+    | dummy =>
+      simp only [openM] at h
+      (first | (refine push_inv3 ?_ h; exact Inv3_of hI (by simpa [Inv3, rootBottom] using hI.1) (by simp [openPart]) rfl rfl) | (simp only [Except.ok.injEq] at h; subst h; exact Inv3_of hI (by simpa [Inv3, rootBottom] using hI.1) (by simp [openPart]) rfl rfl) | (refine closeTop_inv3 ?_ h; exact Inv3_of hI (by simpa [Inv3, rootBottom] using hI.1) (by simp [openPart]) rfl rfl))
+    | root =>
+      have hrest : rest = [] := by simpa [Inv3, rootBottom] using hI.1
+      subst hrest
+      simp only [openM] at h
+      split at h
+      · (first | (refine push_inv3 ?_ h; exact Inv3_of hI (by simp [rootBottom]) (by simp [openPart]) rfl rfl) | (simp only [Except.ok.injEq] at h; subst h; exact Inv3_of hI (by simp [rootBottom]) (by simp [openPart]) rfl rfl) | (refine closeTop_inv3 ?_ h; exact Inv3_of hI (by simp [rootBottom]) (by simp [openPart]) rfl rfl))
+      · split at h
+        · split at h
+          · cases h
+          · split at h
+            · simp [gErr] at h
+            · split at h
+              · simp [gErr] at h
+              · split at h
+                · simp [gErr] at h
+                · split at h
+                  · simp [cErr] at h
+                  · (first | (refine push_inv3 ?_ h; exact Inv3_of hI (by simp [rootBottom]) (by simp [openPart]) rfl rfl) | (simp only [Except.ok.injEq] at h; subst h; exact Inv3_of hI (by simp [rootBottom]) (by simp [openPart]) rfl rfl) | (refine closeTop_inv3 ?_ h; exact Inv3_of hI (by simp [rootBottom]) (by simp [openPart]) rfl rfl))
+        · split at h
+          · split at h
+            · simp [gErr] at h
+            · split at h
+              · cases h
+              · split at h
+                · simp [gErr] at h
+                · split at h
+                  · cases h
+                  · rename_i f hf
+                    obtain ⟨sizes, _, rfl⟩ := meshCreate_ok2 hf
+                    (first | (refine push_inv3 ?_ h; exact Inv3_of hI (by simp [rootBottom]) (by simp [openPart]) rfl rfl) | (simp only [Except.ok.injEq] at h; subst h; exact Inv3_of hI (by simp [rootBottom]) (by simp [openPart]) rfl rfl) | (refine closeTop_inv3 ?_ h; exact Inv3_of hI (by simp [rootBottom]) (by simp [openPart]) rfl rfl))
+          · split at h
+            · split at h
+              · cases h
+              · split at h
+                · cases h
+                · rename_i p links' deduct' hp
+                  obtain ⟨hcl, hname, -, -, -, -, -, hded, -⟩ := partCreate_ok2 hp
+                  have hfresh : ∀ np ∈ node.parts, np.1 ≠ p.name := by
+                    unfold partCreate at hp
+                    rw [hname] at hp
+                    simp only [hcl, Bool.false_eq_true, if_false] at hp
+                    split at hp
+                    · split at hp
+                      · simp [cErr] at hp
+                      · rename_i hnf
+                        rename_i nm _ _ _ hnm _ _ _
+                        simp only [Option.some.injEq] at hnm
+                        subst hnm
+                        apply mapFind_none_key
+                        simpa using hnf
+                    · simp [gErr] at hp
+                  rw [hcl] at h
+                  simp only [Bool.false_eq_true, if_false, Except.ok.injEq] at h
+                  subst h
+                  obtain ⟨_, hd⟩ := hI
+                  simp only [openPart] at hd
+                  have hold : ∀ x ∈ deduct, ∃ np ∈ node.parts, np.1 = x := by
+                    intro x hx
+                    rcases hd.src x hx with h1 | ⟨t, e⟩
+                    · exact h1
+                    · cases e
+                  have hnew : ∀ x ∈ deduct', x ∈ deduct ∨ (x = p.name ∧ p.topoType = .parent) := by
+                    intro x hx
+                    rw [hded] at hx
+                    split at hx
+                    · rename_i hq
+                      simp only [List.mem_append, List.mem_singleton] at hx
+                      rcases hx with hx | hx
+                      · exact Or.inl hx
+                      · exact Or.inr ⟨hx, by simpa using hq⟩
+                    · exact Or.inl hx
+                  refine ⟨rfl, ?_, ?_, ?_⟩
+                  · intro np hnp hin
+                    rcases hnew _ hin with h1 | ⟨h1, _⟩
+                    · exact hd.has np hnp h1
+                    · exact absurd h1 (hfresh np hnp)
+                  · intro x hx
+                    rcases hnew _ hx with h1 | ⟨h1, _⟩
+                    · exact Or.inl (hold x h1)
+                    · exact Or.inr ⟨p.topoType, by simp [openPart, h1]⟩
+                  · intro x hx hin
+                    simp only [openPart, Option.some.injEq, Prod.mk.injEq] at hx
+                    obtain ⟨rfl, hq⟩ := hx
+                    rcases hnew _ hin with h1 | ⟨_, h2⟩
+                    · obtain ⟨np, hnp, e⟩ := hold _ h1
+                      exact hfresh np hnp e
+                    · rw [hq] at h2
+                      cases h2
+            · split at h
+              · split at h
+                · cases h
+                · split at h
+                  · cases h
+                  · rename_i f hf
+                    obtain ⟨prio, level, nr, ne, rfl, _⟩ := partitionCreate_ok2 hf
+                    (first | (refine push_inv3 ?_ h; exact Inv3_of hI (by simp [rootBottom]) (by simp [openPart]) rfl rfl) | (simp only [Except.ok.injEq] at h; subst h; exact Inv3_of hI (by simp [rootBottom]) (by simp [openPart]) rfl rfl) | (refine closeTop_inv3 ?_ h; exact Inv3_of hI (by simp [rootBottom]) (by simp [openPart]) rfl rfl))
+              · simp [gErr] at h
+    | chart name c =>
+      have hr : rootBottom rest := by simpa [Inv3, rootBottom] using hI.1
+      simp only [openM] at h
+      repeat' split at h
+      all_goals first
+        | (simp [gErr] at h; done)
+        | (cases h; done)
+        | (first | (refine push_inv3 ?_ h; exact Inv3_of hI (by simpa [rootBottom] using hr) (by simp [openPart]) rfl rfl) | (simp only [Except.ok.injEq] at h; subst h; exact Inv3_of hI (by simpa [rootBottom] using hr) (by simp [openPart]) rfl rfl) | (refine closeTop_inv3 ?_ h; exact Inv3_of hI (by simpa [rootBottom] using hr) (by simp [openPart]) rfl rfl))
+    | mesh sizes v topo =>
+      have hr : rootBottom rest := by simpa [Inv3, rootBottom] using hI.1
+      simp only [openM] at h
+      repeat' split at h
+      all_goals first
+        | (simp [gErr] at h; done)
+        | (cases h; done)
+        | (obtain ⟨_, dd, _, _, rfl⟩ := topoCreate_ok (by assumption)
+           (first | (refine push_inv3 ?_ h; exact Inv3_of hI (by simpa [rootBottom] using hr) (by simp [openPart]) rfl rfl) | (simp only [Except.ok.injEq] at h; subst h; exact Inv3_of hI (by simpa [rootBottom] using hr) (by simp [openPart]) rfl rfl) | (refine closeTop_inv3 ?_ h; exact Inv3_of hI (by simpa [rootBottom] using hr) (by simp [openPart]) rfl rfl)))
+        | (first | (refine push_inv3 ?_ h; exact Inv3_of hI (by simpa [rootBottom] using hr) (by simp [openPart]) rfl rfl) | (simp only [Except.ok.injEq] at h; subst h; exact Inv3_of hI (by simpa [rootBottom] using hr) (by simp [openPart]) rfl rfl) | (refine closeTop_inv3 ?_ h; exact Inv3_of hI (by simpa [rootBottom] using hr) (by simp [openPart]) rfl rfl))
+    | part p =>
+      have hr : rest = [Frame.root] := by simpa [Inv3, rootBottom] using hI.1
+      simp only [openM] at h
+      repeat' split at h
+      all_goals first
+        | (simp [gErr] at h; done)
+        | (simp [cErr] at h; done)
+        | (cases h; done)
+        | (obtain ⟨_, dd, _, _, rfl⟩ := topoCreate_ok (by assumption)
+           (first | (refine push_inv3 ?_ h; exact Inv3_of hI (by simpa [rootBottom] using hr) (by simp [openPart]) rfl rfl) | (simp only [Except.ok.injEq] at h; subst h; exact Inv3_of hI (by simpa [rootBottom] using hr) (by simp [openPart]) rfl rfl) | (refine closeTop_inv3 ?_ h; exact Inv3_of hI (by simpa [rootBottom] using hr) (by simp [openPart]) rfl rfl)))
+        | (first | (refine push_inv3 ?_ h; exact Inv3_of hI (by simpa [rootBottom] using hr) (by simp [openPart]) rfl rfl) | (simp only [Except.ok.injEq] at h; subst h; exact Inv3_of hI (by simpa [rootBottom] using hr) (by simp [openPart]) rfl rfl) | (refine closeTop_inv3 ?_ h; exact Inv3_of hI (by simpa [rootBottom] using hr) (by simp [openPart]) rfl rfl))
+    | partition name prio level nr ne patches hv =>
+      have hr : rootBottom rest := by simpa [Inv3, rootBottom] using hI.1
+      simp only [openM] at h
+      repeat' split at h
+      all_goals first
+        | (simp [gErr] at h; done)
+        | (simp [cErr] at h; done)
+        | (cases h; done)
+        | (first | (refine push_inv3 ?_ h; exact Inv3_of hI (by simpa [rootBottom] using hr) (by simp [openPart]) rfl rfl) | (simp only [Except.ok.injEq] at h; subst h; exact Inv3_of hI (by simpa [rootBottom] using hr) (by simp [openPart]) rfl rfl) | (refine closeTop_inv3 ?_ h; exact Inv3_of hI (by simpa [rootBottom] using hr) (by simp [openPart]) rfl rfl))
+
+theorem scanLoop_inv3 (lines : List Str) :
+    ∀ (iline : Nat) (names : List Str) (st st' : St),
+      Inv3 st → scanLoop meshClient lines iline names st = .ok st' → Inv3 st' := by
+  induction lines with
+  | nil =>
+    intro iline names st st' _ h
+    unfold scanLoop at h
+    split at h <;> cases h
+  | cons raw rest ih =>
+    intro iline names st st' hI h
+    unfold scanLoop at h
+    simp only at h
+    repeat' split at h
+    all_goals first
+      | (cases h; done)
+      | exact ih _ _ _ _ hI h
+      | exact ih _ _ _ _ (contentM_inv3 hI (by assumption)) h
+      | exact ih _ _ _ _ (closeTop_inv3 hI (by assumption)) h
+      | exact ih _ _ _ _ (openM_inv3 hI (by assumption)) h
+      | (simp only [Except.ok.injEq] at h; subst h; exact closeTop_inv3 hI (by assumption))
+
+theorem Inv3_init (sh : Shape) (dim : Nat) :
+    Inv3 { shape := sh, dim := dim, stack := [Frame.root],
+           node := { mesh := none, parts := [], partitions := [] },
+           links := [], deduct := [], unmodelled := false } := by
+  refine ⟨rfl, ?_, ?_, ?_⟩
+  · intro _ hp; cases hp
+  · intro _ hx; cases hx
+  · intro _ _ hx; cases hx
+
 theorem mapMOpt_getElem? {α β : Type} (f : α → Option β) :
     ∀ (l : List α) (bs : List β), mapMOpt f l = some bs → ∀ (i : Nat) (a : α), l[i]? = some a →
       ∃ b, bs[i]? = some b ∧ f a = some b
@@ -1622,8 +1933,10 @@ theorem parseBody_node_ok {N : Str → Prop} {sh sh' : Shape} {dim dim' : Nat} {
         { shape := sh, dim := dim, stack := [Frame.root], node := { mesh := none, parts := [], partitions := [] },
           links := [], deduct := [], unmodelled := false } = .ok st ∧
       n.charts = st.node.charts ∧ (n.charts = [] → st.links = []) ∧
-      ∀ np ∈ n.parts, np.1 ∉ st.deduct →
-        (np.2.hasTopo = true → zeroBelow np.2.sizes = false) ∧ np.2.noTopoEmpty := by
+      (∀ np ∈ n.parts, np.1 ∉ st.deduct →
+        (np.2.hasTopo = true → zeroBelow np.2.sizes = false) ∧ np.2.noTopoEmpty) ∧
+      (∀ np ∈ n.parts, np.2.hasTopo = true → zeroBelow np.2.sizes = false) ∧
+      ∀ np ∈ n.parts, np.1 ∈ st.deduct → np.2.hasTopo = true := by
   have hmwf := fun msh hm => parseBody_mesh_wf' (msh := msh) h hm
   obtain ⟨rfl, rfl, st, n1, hscan, _, hl, hmap, hd⟩ := parseBody_ok_run h
   obtain ⟨_, _, hstack, hn⟩ := scanLoop_inv2 hN0 _ hN _ _ _ _ (Inv2_init N _ _) hscan
@@ -1653,7 +1966,7 @@ theorem parseBody_node_ok {N : Str → Prop} {sh sh' : Shape} {dim dim' : Nat} {
       refine ⟨msh, by rw [d1]; exact hm1, ?_⟩
       rw [f2] at hd1
       exact hd1
-  refine ⟨rfl, rfl, ?_, hmap', st, hscan, by rw [d3, l3], ?_, ?_⟩
+  refine ⟨rfl, rfl, ?_, hmap', st, hscan, by rw [d3, l3], ?_, ?_, ?_, ?_⟩
   · refine ⟨fun msh hm => hn.mesh64 msh (by rw [← l1, ← d1]; exact hm),
       fun msh hm => hn.meshZB msh (by rw [← l1, ← d1]; exact hm), ?_, ?_,
       sorted_of_keys dk hs1, fun p hp => hn.partitions p (by rw [← l2, ← d2]; exact hp)⟩
@@ -1697,7 +2010,15 @@ theorem parseBody_node_ok {N : Str → Prop} {sh sh' : Shape} {dim dim' : Nat} {
     obtain ⟨np, hnp, e1, c, t, e2, -, e4, -⟩ := hfrom np' hnp'
     have hni' : np.1 ∉ st.deduct := by rw [← e1]; exact hni
     rw [e2, e4 hni']
-    exact ⟨fun hT => hn.partsZB np hnp hni' hT, (hn.parts np hnp).1.2.2.2.2.2.2.1⟩
+    exact ⟨fun hT => hn.partsZB np hnp hT, (hn.parts np hnp).1.2.2.2.2.2.2.1⟩
+  · intro np' hnp'
+    obtain ⟨np, hnp, e1, c, t, e2, -, -, -⟩ := hfrom np' hnp'
+    rw [e2]
+    exact hn.partsZB np hnp
+  · intro np' hnp' hin
+    obtain ⟨np, hnp, e1, c, t, e2, -, -, -⟩ := hfrom np' hnp'
+    rw [e2]
+    exact (scanLoop_inv3 _ _ _ _ _ (Inv3_init _ _) hscan).2.has np hnp (by rw [← e1]; exact hin)
 
 end S2
 
@@ -2236,10 +2557,34 @@ theorem parseBody_parts_nonded {sh sh' : Shape} {dim dim' : Nat} {m : Markup} {i
     {n : Node} (h : parseBody sh dim m iline rest = .ok sh' dim' n) :
     ∀ np ∈ n.parts, np.1 ∉ deductOfBody sh dim m iline rest →
       (np.2.hasTopo = true → zeroBelow np.2.sizes = false) ∧ np.2.noTopoEmpty := by
-  obtain ⟨_, _, _, _, st, hscan, _, _, hz⟩ :=
+  obtain ⟨_, _, _, _, st, hscan, _, _, hz, _⟩ :=
     S2.parseBody_node_ok (N := fun _ => True) trivial (fun _ _ _ _ _ _ _ => trivial) h
   unfold deductOfBody
   rw [hscan]
+  exact hz
+
+/-- **a mesh part without topology has empty index sets** — for every part of every accepted file: a part on
+    the linker's deduction list was declared `topology="parent"` (no two `<MeshPart>` frames are open at once and
+    part names are unique), so it has a topology -/
+theorem parseBody_parts_noTopoEmpty {sh sh' : Shape} {dim dim' : Nat} {m : Markup} {iline : Nat}
+    {rest : List Str} {n : Node} (h : parseBody sh dim m iline rest = .ok sh' dim' n) :
+    ∀ np ∈ n.parts, np.2.noTopoEmpty := by
+  obtain ⟨_, _, _, _, st, _, _, _, hz, _, hd⟩ :=
+    S2.parseBody_node_ok (N := fun _ => True) trivial (fun _ _ _ _ _ _ _ => trivial) h
+  intro np hnp
+  by_cases hin : np.1 ∈ st.deduct
+  · intro hF
+    rw [hd np hnp hin] at hF
+    cases hF
+  · exact (hz np hnp hin).2
+
+/-- every mesh part with a topology (`topology="full"` or deducted from `topology="parent"`): no entity count of
+    zero below a non-zero one -/
+theorem parseBody_parts_no_zero_below_all {sh sh' : Shape} {dim dim' : Nat} {m : Markup} {iline : Nat}
+    {rest : List Str} {n : Node} (h : parseBody sh dim m iline rest = .ok sh' dim' n) :
+    ∀ np ∈ n.parts, np.2.hasTopo = true → zeroBelow np.2.sizes = false := by
+  obtain ⟨_, _, _, _, st, _, _, _, _, hz, _⟩ :=
+    S2.parseBody_node_ok (N := fun _ => True) trivial (fun _ _ _ _ _ _ _ => trivial) h
   exact hz
 
 theorem parseMeshFile_parts_nonded {text : Str} {sh : Shape} {dim : Nat} {n : Node}
@@ -2254,7 +2599,8 @@ theorem parseMeshFile_parts_nonded {text : Str} {sh : Shape} {dim : Nat} {n : No
   exact this
 
 /-- **no empty entity dimension below a non-empty one** for mesh parts with an own (`topology="full"`) topology.
-    For a `topology="parent"` part (`np.1 ∈ deductNames text`) the reader does not check this. -/
+    (Older, weaker form kept for its users; `parseMeshFile_parts_no_zero_below_all` drops the `deductNames` side
+    condition: the reader checks this for `topology="parent"` parts as well.) -/
 theorem parseMeshFile_parts_no_zero_below {text : Str} {sh : Shape} {dim : Nat} {n : Node}
     (h : parseMeshFile text = .ok sh dim n) :
     ∀ np ∈ n.parts, np.1 ∉ deductNames text → np.2.hasTopo = true → zeroBelow np.2.sizes = false :=
@@ -2273,6 +2619,51 @@ theorem reparse_parts_no_zero_below {text : Str} {sh sh' : Shape} {dim dim' : Na
       unfold deductNamesAs
       rw [hroot]
       exact fun np hnp hni => (this np hnp hni).1
+
+/-- **no empty entity dimension below a non-empty one, for EVERY mesh part with a topology** — `topology="full"`
+    and `topology="parent"` alike (`MeshPartParser::create` rejects the size list for every part that has or will
+    get a topology). -/
+theorem parseMeshFile_parts_no_zero_below_all {text : Str} {sh : Shape} {dim : Nat} {n : Node}
+    (h : parseMeshFile text = .ok sh dim n) :
+    ∀ np ∈ n.parts, np.2.hasTopo = true → zeroBelow np.2.sizes = false := by
+  obtain ⟨m, iline, rest, sd, wd, _, _, _, hbody⟩ := S2.parseMeshFile_decomp h
+  exact parseBody_parts_no_zero_below_all hbody
+
+theorem reparse_parts_no_zero_below_all {text : Str} {sh sh' : Shape} {dim dim' : Nat} {n : Node}
+    (h : reparse sh dim text = .ok sh' dim' n) :
+    ∀ np ∈ n.parts, np.2.hasTopo = true → zeroBelow np.2.sizes = false := by
+  unfold reparse at h
+  split at h
+  · cases h
+  · split at h
+    · cases h
+    · exact parseBody_parts_no_zero_below_all h
+
+/-- **a mesh part without topology has empty index sets**, for every part of every accepted file -/
+theorem parseMeshFile_parts_noTopoEmpty {text : Str} {sh : Shape} {dim : Nat} {n : Node}
+    (h : parseMeshFile text = .ok sh dim n) : ∀ np ∈ n.parts, np.2.noTopoEmpty := by
+  obtain ⟨m, iline, rest, sd, wd, _, _, _, hbody⟩ := S2.parseMeshFile_decomp h
+  exact parseBody_parts_noTopoEmpty hbody
+
+theorem reparse_parts_noTopoEmpty {text : Str} {sh sh' : Shape} {dim dim' : Nat} {n : Node}
+    (h : reparse sh dim text = .ok sh' dim' n) : ∀ np ∈ n.parts, np.2.noTopoEmpty := by
+  unfold reparse at h
+  split at h
+  · cases h
+  · split at h
+    · cases h
+    · exact parseBody_parts_noTopoEmpty h
+
+/-- every mesh part on the linker's deduction list (`topology="parent"`) has a topology in the result -/
+theorem parseMeshFile_deducted_hasTopo {text : Str} {sh : Shape} {dim : Nat} {n : Node}
+    (h : parseMeshFile text = .ok sh dim n) : ∀ np ∈ n.parts, np.1 ∈ deductNames text → np.2.hasTopo = true := by
+  obtain ⟨m, iline, rest, sd, wd, hroot, hrt, _, hbody⟩ := S2.parseMeshFile_decomp h
+  obtain ⟨_, _, _, _, st, hscan, _, _, _, _, hd⟩ :=
+    S2.parseBody_node_ok (N := fun _ => True) trivial (fun _ _ _ _ _ _ _ => trivial) hbody
+  unfold deductNames deductOfBody
+  rw [hroot]
+  simp only [hrt, hscan]
+  exact hd
 
 /-- a chart-linked mesh part refers to a chart of the atlas -/
 theorem parseMeshFile_chart_links {text : Str} {sh : Shape} {dim : Nat} {n : Node}
@@ -2343,6 +2734,34 @@ theorem parse_print_parse (text : Str) (sh : Shape) (dim : Nat) (n : Node)
   | some msh =>
     obtain ⟨hwf, h64, hzb'⟩ := hmesh msh rfl
     exact parse_print_node_full sh dim msh parts partitions hs hwf h64 hzb' hp hsorted hpt hmap
+
+/-- `parseMeshFile_printable` without the `hzb` / `hnt` hypotheses: every accepted file without charts yields a
+    printable node -/
+theorem parseMeshFile_printable_nocharts (text : Str) (sh : Shape) (dim : Nat) (n : Node)
+    (h : parseMeshFile text = .ok sh dim n) (hc : n.charts = []) :
+    supported sh (dim : Int) (dim : Int) = true ∧
+    (∀ m, n.mesh = some m → m.wf sh dim = true ∧ (∀ s ∈ m.sizes, s < 2 ^ 64) ∧ zeroBelow m.sizes = false) ∧
+    (∀ np ∈ n.parts, PartOkFull sh dim np.1 np.2) ∧
+    n.parts.Pairwise (fun a b => strLt a.1 b.1 = true) ∧
+    (∀ p ∈ n.partitions, PartitionOk p) ∧
+    mapOutOfRange n = false :=
+  parseMeshFile_printable text sh dim n h hc (parseMeshFile_parts_no_zero_below_all h)
+    (parseMeshFile_parts_noTopoEmpty h)
+
+/-- `parse_print_parse` without the `hzb` hypothesis: the reader itself guarantees it for every part with a
+    topology (`parseMeshFile_parts_no_zero_below_all`) -/
+theorem parse_print_parse_nozb (text : Str) (sh : Shape) (dim : Nat) (n : Node)
+    (h : parseMeshFile text = .ok sh dim n) (hm : n.mesh.isSome) (hc : n.charts = [])
+    (hnt : ∀ np ∈ n.parts, np.2.noTopoEmpty) :
+    parseMeshFile (printMeshFile sh dim n) = .ok sh dim n :=
+  parse_print_parse text sh dim n h hm hc (parseMeshFile_parts_no_zero_below_all h) hnt
+
+/-- **parse ∘ print ∘ parse = parse for every accepted file with a root mesh and without charts** — no further
+    hypotheses (`topology="parent"` parts included: they are written as `topology="full"`) -/
+theorem parse_print_parse_nocharts (text : Str) (sh : Shape) (dim : Nat) (n : Node)
+    (h : parseMeshFile text = .ok sh dim n) (hm : n.mesh.isSome) (hc : n.charts = []) :
+    parseMeshFile (printMeshFile sh dim n) = .ok sh dim n :=
+  parse_print_parse_nozb text sh dim n h hm hc (parseMeshFile_parts_noTopoEmpty h)
 
 /-- closed form for files without `topology="parent"` parts and without charts: no further hypotheses -/
 theorem parse_print_parse_noparent (text : Str) (sh : Shape) (dim : Nat) (n : Node)
